@@ -87,7 +87,36 @@ def enum_positions(ctx):
                        "df": rng.choice([17, 18]), "ctx_addr": rng.getrandbits(24), "ctx_head": rng.getrandbits(27), "hc": rng.choice("ULM")}
 
 
+def enum_corpus(ctx):
+    from vlib import corpus
+    for start, _ in corpus.blocks(corpus.adsb(), ctx):
+        yield {"start": start}
+
+
+def chk_corpus(case, note):
+    """real identification frames: decode with the library, re-encode with the reference alphabet, compare with the transmitted bits"""
+    from vlib import corpus
+    n = 0
+    for m, _icao, tc in corpus.adsb()[case["start"]:case["start"] + 100]:
+        if not 1 <= tc <= 4:
+            continue
+        r = call(pms.adsb.callsign, m)
+        if r[0] != "ok" or not isinstance(r[1], str) or len(r[1]) != 8 or any(ch not in ALPHA.replace(" ", "_") for ch in r[1]):
+            return "adsb.callsign(%s) -> %r for a real identification frame" % (m, r)
+        bits = (int(m, 16) >> 24) & ((1 << 48) - 1)
+        if pack(r[1].replace("_", " ")) != bits:
+            return "real frame %s: callsign %r re-encodes to %012X, transmitted %012X" % (m, r[1], pack(r[1].replace("_", " ")), bits)
+        if call(pms.adsb.category, m) != ("ok", (int(m, 16) >> 72) & 7):
+            return "adsb.category(%s) -> %r" % (m, call(pms.adsb.category, m))
+        n += 1
+    note.evals = max(1, n)
+    note.cls("real-tc4")
+    note.nt(n > 0)
+    return None
+
+
 LEGS = [
+    Leg("corpus", chk_corpus, enum=enum_corpus, exhaustive=True, doc="98 real identification frames: decoded callsign re-encodes to the transmitted bits"),
     Leg("positions", chk_cs, enum=enum_positions, exhaustive=True, doc="every legal code at every position (8 x 37)"),
     Leg("strings", chk_cs, strategy=s_cs, quick=12000, thorough=600000, doc="random identifications with a one-character change"),
 ]
